@@ -90,7 +90,31 @@ class HierCase(object):
         self.top_names_full = pm.get_parameter_names()
         n_top = self.h.n_top
         self.free_top = np.ones(n_top, dtype=bool)
-        if self.reduced:
+        self.sub_model_fixed = False
+        if self.reduced and self.nest is None and len(self.leaves) > 1 \
+                and rng.random() < 0.4:
+            # the fixing happens inside ONE sub-model (a reduced sub-model
+            # with some or all of its population parameters fixed), not
+            # around the whole population model
+            models = [GP.build_chi_leaf(l, self.n_ids) for l in self.leaves]
+            j = int(rng.integers(len(self.leaves)))
+            off = sum(l.n_top(self.n_ids) for l in self.leaves[:j])
+            nt = self.leaves[j].n_top(self.n_ids)
+            sub_names = models[j].get_parameter_names()
+            pick = np.arange(nt) if rng.random() < 0.5 else \
+                rng.permutation(nt)[:int(rng.integers(1, nt + 1))]
+            if len(set(sub_names)) == len(sub_names) == nt:
+                top = self.x_full[self.h.n_bottom:]
+                sub = chi.ReducedPopulationModel(models[j])
+                sub.fix_parameters({
+                    sub_names[i]: float(top[off + i]) for i in pick})
+                models[j] = sub
+                self.free_top[off + np.asarray(pick)] = False
+                pm = chi.ComposedPopulationModel(models)
+                pm.set_n_ids(self.n_ids)
+                pm.set_dim_names(self.dim_names)
+                self.sub_model_fixed = True
+        if self.reduced and not self.sub_model_fixed:
             pm = chi.ReducedPopulationModel(pm)
             k = int(rng.integers(0, max(1, n_top // 2) + 1))
             idx = rng.permutation(n_top)[:k]
@@ -215,6 +239,7 @@ class HierCase(object):
                 'fixed_top_mask': (~self.free_top).tolist()
                 if self.x_full is not None else None,
                 'posterior': self.posterior, 'id_style': self.id_style,
+                'sub_model_fixed': getattr(self, 'sub_model_fixed', False),
                 'nested_wrappers': self.nest is not None,
                 'x': self.x_full, 'covariates': self.cov}
 
